@@ -4,6 +4,7 @@ from core import Case, q, qs, fr, show_list, show_pts
 import gen as G
 import shapes as S
 import knotops as KO
+import rowsops as RO
 
 PID = 'C06'
 FLOAT_KINDS = {'ins-rem', 'ins-rem-method'}      # float-mode companion; 'refine-rem' asks for the removal of a midpoint the harness computes exactly, which in doubles need not be bit-identical to the refined knot
@@ -18,7 +19,7 @@ PARTIAL = [
     "which OTHER knots were inserted, i.e. 'whenever removable at all' (needs uniqueness of B-spline coefficients / "
     "linear independence); these are checked by the exact oracle and the correspondence only",
     "object-level (Shape) round trip removeKnot (insertKnot S ...).1 ... = (S, true), the partial version (r in, t <= r out = r - t in) and the evaluated-point corollary are proved for curves, for either direction of a surface and for any direction of a volume (surface_insert_then_remove, volume_insert_then_remove, *_insert_r_remove_t_object, *_remove_after_insert_preserves_points) when the call requests ONE direction (OnlyDir); insert in several directions followed by removal in several directions is not proved (the removal of the first direction then runs on a net refined in the others: needs the commutation of insertion in one direction with removal in another)",
-    "volumes: one removability flag is computed from the first iso-curve (as the code does); the model decides per iso-curve, so only removable knots are generated for volumes",
+    "volumes, list-of-rows branch of helpers.knot_removal: MODELLED as coded (knotRemovalRows: sweep over whole rows, ONE removability flag per step from the FIRST point of the rows, and the object sharing between temp and ctrlpts_new - temp[last-first+2] = ctrlpts_new[last+1] stores the list itself, which the sweep of the next step writes into; streams rem-rows (inserted / random / only-first-removable / first-not-removable rows, 1..s copies, and the three Lean witnesses) and rem-vol-rows against the real helper called with rows and against operations.remove_knot on volumes, removable or not). PROVED: if every iso-curve passes the removability test at every step (Rows.AllRemovable, decidable; true after insertion: inserted_knots_all_removable) the rows branch returns exactly the per-iso-curve results (knotRemovalRows_isocurve_of_all_removable, knotRemovalRows_is_transposed_knotRemoval, mapVolRows_remove_eq_mapVol, removeKnotVolRows_is_removeKnotDir, volume_u/v/w_rows_insert_r_remove_t); for ONE removal it does so on every iso-curve whose flag equals the first iso-curve's flag (knotRemovalRows_one_removal_isocurve_of_equal_flags); rows stay rectangular for any input. REFUTED on concrete witnesses (kernel-decided, replayed on the implementation): the two flag mismatches (knotRemovalRows_refutes_isocurve_when_only_first_removable / _when_first_not_removable) and, for 2+ removals of a knot that is NOT removable, the write through the shared row, which changes a control point even with a single iso-curve (knotRemovalRows_refutes_point_branch_on_shared_row: rows branch 8, point branch 1). NOT proved: agreement for 2+ removals when some step finds the knot not removable (there the two branches of the CODE genuinely differ); the object-level model removeKnotDir / removeKnot keeps deciding per iso-curve, so the operation-level streams ins-rem* still generate only removable knots for volumes - the rows model (rowsvol) is the one compared on unremovable volume knots",
 ]
 
 
@@ -128,6 +129,83 @@ def gen(rng, tier):
         nt = [0] * nd; nt[i] = 1
         line = "ops %s %s R %s %s 1" % (KO.KIND[d['kind']], S.args(d), KO.opt(prm), ",".join(map(str, nt)))
         out.append(Case('rem-only', line, dict(shape=d, dir=i, prm=prm, nt=nt)))
+    # the LIST-OF-ROWS branch of helpers.knot_removal (what operations.remove_knot feeds for volumes), helper
+    # level, against `knotRemovalRows`: rows produced by insertion (removable), random rows (not removable;
+    # with 2+ copies the sweep writes into a row of ctrlpts_new through `temp`), and rows in which only the
+    # FIRST iso-curve / every iso-curve but the first is removable (one flag from the first point of the rows)
+    for _ in range(60 if tier == 'quick' else 800):
+        p = rng.randint(1, 4)
+        mode = rng.choice(['inserted', 'inserted', 'random', 'random', 'first-ok', 'first-bad'])
+        if mode == 'random':
+            kv, n_, R = RO.rand_rows(rng, p, max_interior=3, max_mult=p)
+            interior = sorted(set(kv[p + 1:n_]))
+            if not interior:
+                continue
+            u = rng.choice(interior)
+            s = RO.mult(kv, u)
+            num = rng.randint(1, s)
+        else:
+            kv0, n0, R0 = RO.rand_rows(rng, p, max_interior=2, width=rng.randint(2, 4) if mode != 'inserted' else None)
+            interior = sorted(set(kv0[p + 1:n0]))
+            if interior and rng.random() < .35:
+                u = rng.choice(interior)
+            else:
+                u = kv0[p] + (kv0[n0] - kv0[p]) * F(rng.randint(1, 99), 100)
+            s0 = RO.mult(kv0, u)
+            if s0 >= p:
+                continue
+            r = rng.randint(1, p - s0)
+            kv, R = RO.insert_rows(p, kv0, R0, u, r)
+            n_ = len(R)
+            s = s0 + r
+            num = rng.randint(1, r)
+            if mode in ('first-ok', 'first-bad'):
+                # move one affected control point of some iso-curves: those are no longer removable
+                k0 = RO.span(kv, p, n_, u)
+                row = rng.randint(k0 - p, k0 - s)
+                cols = range(1, len(R[0])) if mode == 'first-ok' else [0]
+                for cc in cols:
+                    R[row][cc] = [x + F(rng.randint(1, 5)) for x in R[row][cc]]
+        k = RO.span(kv, p, n_, u)
+        G.count('rows_rem', (mode, num))
+        out.append(Case('rem-rows', RO.rows_line('rowsrem', p, kv, R, fr(u), num, s, k),
+                        dict(p=p, kv=kv, R=R, u=u, num=num, s=s, k=k, mode=mode), tags=(mode,)))
+    # the three witnesses of Props/C06.lean (knotRemovalRows_refutes_*): rows branch vs per-iso-curve model
+    kvq = [F(0)] * 3 + [F(1, 2)] + [F(1)] * 3
+    A_ = [[F(0)], [F(1)], [F(1)], [F(0)]]; B_ = [[F(0)], [F(1)], [F(3)], [F(0)]]
+    for tag, cols in (('witness-first-ok', (A_, B_)), ('witness-first-bad', (B_, A_))):
+        R = RO.from_columns(list(cols))
+        out.append(Case('rem-rows', RO.rows_line('rowsrem', 2, kvq, R, '1/2', 1, 1, 3),
+                        dict(p=2, kv=kvq, R=R, u=F(1, 2), num=1, s=1, k=3, mode=tag), tags=(tag,)))
+    kv4 = [F(0)] * 5 + [F(1, 2)] * 2 + [F(1)] * 5
+    R = [[[F(x)]] for x in (0, 1, 3, -2, 5, 1, 0)]
+    out.append(Case('rem-rows', RO.rows_line('rowsrem', 4, kv4, R, '1/2', 2, 2, 6),
+                    dict(p=4, kv=kv4, R=R, u=F(1, 2), num=2, s=2, k=6, mode='witness-shared-row'), tags=('witness-shared-row',)))
+    # one direction of operations.remove_knot on a volume against the gather / rows-branch / scatter model:
+    # after an insertion computed the same way (removable), and on a random volume (not removable)
+    for _ in range(24 if tier == 'quick' else 300):
+        d = S.rand_volume(rng, maxp=3, max_interior=2, allow_range=rng.random() < .3)
+        i = rng.randrange(3)
+        p, kv, n_ = S.dirs(d)[i]
+        interior = sorted(set(kv[p + 1:n_]))
+        if rng.random() < .6:
+            u = kv[p] + (kv[n_] - kv[p]) * F(rng.randint(1, 99), 100) if (not interior or rng.random() < .6) else rng.choice(interior)
+            s = RO.mult(kv, u)
+            if s >= p:
+                continue
+            r = rng.randint(1, p - s)
+            t = rng.randint(1, r)
+            reqs = [['I', i, u, r], ['R', i, u, t]]
+            G.count('rows_vol_rem', ('inserted', r, t))
+        else:
+            if not interior:
+                continue
+            u = rng.choice(interior)
+            t = rng.randint(1, RO.mult(kv, u))
+            reqs = [['R', i, u, t]]
+            G.count('rows_vol_rem', ('random', t))
+        line = "rowsvol v %s %s" % (S.args(d), " ".join("%s %d %s %d 1" % (a, b, fr(c_), e_) for a, b, c_, e_ in reqs))
+        out.append(Case('rem-vol-rows', line, dict(shape=d, reqs=reqs)))
     return out
 
 
@@ -170,13 +248,82 @@ def _run(c, o):
     raise ValueError(c.kind)
 
 
+def _rows_call(c):
+    from geomdl import helpers
+    x = c.data
+    return RO.unq(helpers.knot_removal(x['p'], qs(x['kv']), RO.qrows(x['R']), q(x['u']), num=x['num'], s=x['s'], span=x['k']))
+
+
+def _vol_rows(c):
+    from geomdl import operations
+    o = S.build(c.data['shape'])
+    for op, i, u, r in c.data['reqs']:
+        prm = [None] * 3; prm[i] = q(u)
+        nums = [0] * 3; nums[i] = r
+        (operations.insert_knot if op == 'I' else operations.remove_knot)(o, prm, nums)
+    return o
+
+
 def impl(c):
+    if c.kind == 'rem-rows':
+        from core import show_pts2
+        return show_pts2(_rows_call(c))
+    if c.kind == 'rem-vol-rows':
+        return KO.show_shape(S.from_obj(_vol_rows(c)))
     o = S.build(c.data['shape'])
     _run(c, o)
     return KO.show_shape(S.from_obj(o))
 
 
+def _oracle_rows(c):
+    from geomdl import helpers
+    x = c.data
+    try:
+        Q = _rows_call(c)
+    except Exception as e:
+        return "knot_removal on rows raised %s: %s" % (type(e).__name__, e)
+    if len(Q) != len(x['R']) - x['num']:
+        return "knot_removal on rows did not drop %d rows" % x['num']
+    if x['mode'] != 'inserted':
+        return None
+    # removable on every iso-curve: the rows branch must return what the point branch returns per iso-curve
+    cols = []
+    for j in range(len(x['R'][0])):
+        col = [[q(v) for v in pt] for pt in RO.column(x['R'], j)]
+        cols.append(RO.unq([helpers.knot_removal(x['p'], qs(x['kv']), col, q(x['u']), num=x['num'], s=x['s'], span=x['k'])])[0])
+    if Q != RO.from_columns(cols):
+        return "knot_removal on a list of rows (every iso-curve removable) differs from knot_removal applied to every iso-curve"
+    return None
+
+
+def _oracle_vol_rows(c):
+    d = c.data['shape']
+    try:
+        o = _vol_rows(c)
+    except Exception as e:
+        return "raised %s: %s" % (type(e).__name__, e)
+    after = S.from_obj(o)
+    reqs = c.data['reqs']
+    i = reqs[0][1]
+    delta = sum(r if op == 'I' else -r for op, _, _, r in reqs)
+    if S.dirs(after)[i][2] != S.dirs(d)[i][2] + delta:
+        return "net size after the requests is not the old one %+d" % delta
+    if reqs[0][0] == 'I':
+        mid = dict(d); p, kv, n = S.dirs(d)[i]
+        grid = KO.probe_params(d, [[reqs[0][2]] if k == i else [] for k in range(3)])
+        why = KO.same_points(d, after, grid)
+        if why:
+            return "insert then remove (volume): " + why
+        if delta == 0 and after['P'] != d['P']:
+            return "inserting and removing the same count does not restore the control points"
+    return None
+
+
 def oracle(c):
+    if c.kind == 'rem-rows':
+        return _oracle_rows(c)
+    if c.kind == 'rem-vol-rows':
+        return _oracle_vol_rows(c)
     d = c.data['shape']
     o = S.build(d)
     before = S.from_obj(o)
